@@ -31,7 +31,7 @@ def run(ctx):
         ok_make, make_out = vlib.coq_make(ctx, "Libfuncs")
         cone = vlib.cone_files("Libfuncs")
         if ok_make:
-            pr = vlib.check_properties_file(ctx, os.path.join(vlib.COQ, "Props/C03.v"), cone)
+            pr = vlib.check_properties_file(ctx, os.path.join(vlib.COQ, "Props/C03.v"), cone, timeout=900)
     proof_ok = bool(pr and pr["ok"])
     apcost = hc.libfunc_ap_cost(ctx, vlib.cone_files("Libfuncs")) if ok_make else None
 
